@@ -649,20 +649,16 @@ impl FunctionCall {
 impl Expression for FunctionCall {
     fn resolve(&self, ctx: &mut Context) -> Resolved {
         self.expr.resolve(ctx).map_err(|err| match err {
+            // `abort` and `return` end the program: propagate them untouched. (A `return`
+            // inside a closure body never gets here: the closure runner turns it into the
+            // value of the iteration.)
             ExpressionError::Abort { .. }
+            | ExpressionError::Return { .. }
             | ExpressionError::Fallible { .. }
             | ExpressionError::Missing { .. } => {
                 // propagate the error
                 err
             }
-            ExpressionError::Return { span, .. } => ExpressionError::Error {
-                message: "return cannot be used inside closures".to_owned(),
-                labels: vec![Label::primary(
-                    "return cannot be used inside closures",
-                    span,
-                )],
-                notes: Vec::new(),
-            },
             ExpressionError::Error {
                 message,
                 mut labels,
